@@ -6,6 +6,8 @@ package memtpt
 
 import (
 	"fmt"
+	"net"
+	"sync"
 
 	"github.com/libp2p/go-libp2p/core/crypto"
 	"github.com/libp2p/go-libp2p/core/network"
@@ -66,6 +68,7 @@ type Side struct {
 	Upgrader transport.Upgrader
 	Addr     ma.Multiaddr
 	PSK      ipnet.PSK
+	Muxer    *RecMuxer // recording decorator around the real yamux transport
 }
 
 // FixedPSK is the 32-byte pre-shared key used by every PSK configuration.
@@ -102,7 +105,8 @@ func NewSide(name string, cfg Config, seed int64, addr ma.Multiaddr, opts ...upg
 	if cfg.PSK {
 		s.PSK = FixedPSK
 	}
-	s.Upgrader, err = NewUpgrader(cfg, priv, s.PSK, s.RM, s.Gater, opts...)
+	s.Muxer = &RecMuxer{Real: yamux.DefaultTransport}
+	s.Upgrader, err = NewUpgrader(cfg, priv, s.PSK, s.RM, s.Gater, s.Muxer, opts...)
 	if err != nil {
 		real.Close()
 		return nil, err
@@ -111,8 +115,11 @@ func NewSide(name string, cfg Config, seed int64, addr ma.Multiaddr, opts ...upg
 }
 
 // NewUpgrader builds the real upgrader for a configuration.
-func NewUpgrader(cfg Config, priv crypto.PrivKey, psk ipnet.PSK, rm network.ResourceManager, gater *memnet.Gater, opts ...upgrader.Option) (transport.Upgrader, error) {
-	muxers := []upgrader.StreamMuxer{{ID: yamux.ID, Muxer: yamux.DefaultTransport}}
+func NewUpgrader(cfg Config, priv crypto.PrivKey, psk ipnet.PSK, rm network.ResourceManager, gater *memnet.Gater, mux network.Multiplexer, opts ...upgrader.Option) (transport.Upgrader, error) {
+	if mux == nil {
+		mux = yamux.DefaultTransport
+	}
+	muxers := []upgrader.StreamMuxer{{ID: yamux.ID, Muxer: mux}}
 	var secMuxers []upgrader.StreamMuxer
 	if cfg.EarlyMux {
 		secMuxers = muxers
@@ -134,4 +141,43 @@ func NewUpgrader(cfg Config, priv crypto.PrivKey, psk ipnet.PSK, rm network.Reso
 		return upgrader.New([]sec.SecureTransport{st}, muxers, psk, rm, nil, opts...)
 	}
 	return upgrader.New([]sec.SecureTransport{st}, muxers, psk, rm, gater, opts...)
+}
+
+// RecMuxer decorates a real stream muxer: it records every NewConn call (the last step of an upgrade) and
+// keeps the resulting muxed connections so that a harness can tell "the upgrade completed on this side"
+// and ask whether the session is still open. All work is done by the real muxer.
+type RecMuxer struct {
+	Real network.Multiplexer
+
+	mu    sync.Mutex
+	calls int
+	conns []network.MuxedConn
+	errs  []error
+}
+
+func (m *RecMuxer) NewConn(c net.Conn, isServer bool, scope network.PeerScope) (network.MuxedConn, error) {
+	mc, err := m.Real.NewConn(c, isServer, scope)
+	m.mu.Lock()
+	m.calls++
+	if err == nil {
+		m.conns = append(m.conns, mc)
+	} else {
+		m.errs = append(m.errs, err)
+	}
+	m.mu.Unlock()
+	return mc, err
+}
+
+// Conns returns the muxed connections created so far.
+func (m *RecMuxer) Conns() []network.MuxedConn {
+	m.mu.Lock()
+	defer m.mu.Unlock()
+	return append([]network.MuxedConn(nil), m.conns...)
+}
+
+// Calls returns how often NewConn was called.
+func (m *RecMuxer) Calls() int {
+	m.mu.Lock()
+	defer m.mu.Unlock()
+	return m.calls
 }
